@@ -272,6 +272,7 @@ Definition put_pstate (w : world) (p : procid) (ps : pstate) : world :=
   set_procs w ((p, ps) :: filter (fun x => negb (procid_eqb (fst x) p)) (w_procs w)).
 
 Definition m_release (u : eunit) (inst : Z) : M unit := w <- get_w ;; put_w (release_role w u inst).
+Definition m_acquire (u : eunit) (inst : Z) : M unit := w <- get_w ;; put_w (acquire_role w u inst).
 
 Definition is_consumer (u : eunit) : bool :=
   match u with EStep _ _ _ | EInserter _ | EHook _ | EDelete | ERetry => true | _ => false end.
@@ -387,7 +388,7 @@ Definition proc_op (inst : Z) (u : eunit) (ps : pstate) : M pstate :=
       match d with
       | DoOk | DoStale =>
         emit (TCall KAW [] ROk []) ;;;
-        put_w (acquire_role w u inst) ;;;
+        m_acquire u inst ;;;
         match u with
         | EOutbox =>
           guarded inst u false
@@ -518,7 +519,7 @@ Definition run_op (w : world) (o : eop) : world * list tok :=
     | PIdle => (w, [])
     | _ => (set_lost (release_role w u inst) ((inst, u) :: w_lost w), [])
     end
-  | ORewind u pos => (put_cursor w u pos, [])
+  | ORewind u pos => (put_cursor w u (Nat.min pos (get_cursor w u)), [])   (* a rewind only moves a committed position backwards (redelivery) *)
   | ODup idx =>
     match nth_error (w_log w) idx with
     | Some e => (set_log w (w_log w ++ [mkEvent (Z.of_nat (length (w_log w)) + 1) (e_wf e) (e_topic e) (e_run e) (e_fid e) (e_type e) (e_state e) (e_ver e) (e_created e)]), [])
